@@ -51,12 +51,25 @@ class Parser:
 
     def is_type(self, k=0):
         tok = self.peek(k)
-        return tok[0] == 'id' and tok[1] in self.typenames
+        return tok[0] == 'id' and (tok[1] in self.typenames or tok[1] in ('typeof', '__typeof__', '_Atomic'))
 
     def skip_type(self):
         n = 0
         while self.is_type():
+            tok = self.peek()
             self.i += 1; n += 1
+            if tok[1] in ('typeof', '__typeof__') or (tok[1] == '_Atomic' and self.peek() == ('p', '(')):
+                # typeof(expr) / _Atomic(type): skip the balanced parentheses, the operand is not evaluated
+                self.eat('(')
+                depth = 1
+                while depth:
+                    t = self.eat()
+                    if t[0] == 'eof':
+                        raise NotInSubset('unbalanced typeof')
+                    if t == ('p', '('):
+                        depth += 1
+                    elif t == ('p', ')'):
+                        depth -= 1
         while self.peek() == ('p', '*'):
             self.i += 1
         if not n:
@@ -87,7 +100,14 @@ class Parser:
             self.eat()
             e = self.expr(); self.eat(';')
             return ('return', e)
-        if tok[0] == 'id' and tok[1] in ('while', 'for', 'do', 'switch', 'goto'):
+        if tok == ('id', 'while'):
+            self.eat(); self.eat('(')
+            c = self.expr(); self.eat(')')
+            return ('while', c, self.stmt())
+        if tok == ('p', ';'):
+            self.eat()
+            return ('block', [])
+        if tok[0] == 'id' and tok[1] in ('for', 'do', 'switch', 'goto'):
             raise NotInSubset('statement %s' % tok[1])
         if self.is_type():
             self.skip_type()
@@ -140,8 +160,12 @@ class Parser:
         if tok[0] == 'p' and tok[1] in ('-', '~', '!', '+'):
             self.eat()
             return ('un', tok[1], self.unary())
-        if tok[0] == 'p' and tok[1] in ('*', '&'):
-            raise NotInSubset('unary %s' % tok[1])
+        if tok == ('p', '*'):
+            self.eat()
+            return ('deref', self.unary())
+        if tok == ('p', '&'):
+            self.eat()
+            return ('addr', self.unary())
         return self.postfix()
 
     def postfix(self):
@@ -150,6 +174,8 @@ class Parser:
             e = ('num', tok[1])
         elif tok[0] == 'id':
             e = ('var', tok[1])
+        elif tok == ('p', '(') and self.peek() == ('p', '{'):
+            e = ('stmtexpr', self.block()); self.eat(')')
         elif tok == ('p', '('):
             e = self.expr(); self.eat(')')
         else:
@@ -207,10 +233,24 @@ class _Return(Exception):
 M64 = (1 << 64) - 1
 
 
+class Cell:
+    """an object: variables are cells, `&x` is the cell, `*p` is its content"""
+    def __init__(self, v=0, name='?'):
+        self.v = v; self.name = name
+
+    def get(self):
+        return self.v
+
+    def set(self, v):
+        self.v = v
+
+
 class Eval:
-    def __init__(self, fns):
+    def __init__(self, fns, builtins=None):
         self.fns = fns
+        self.builtins = builtins or {}
         self.depth = 0
+        self.steps = 0
 
     def call(self, name, args):
         if name not in self.fns:
@@ -221,7 +261,7 @@ class Eval:
         self.depth += 1
         if self.depth > 8:
             raise NotInSubset('recursion')
-        env = dict(zip(params, args))
+        env = {p_: Cell(a, p_) for p_, a in zip(params, args)}
         try:
             self.exec(body, env)
         except _Return as r:
@@ -243,7 +283,13 @@ class Eval:
         elif k == 'return':
             raise _Return(self.ev(s[1], env))
         elif k == 'decl':
-            env[s[1]] = self.ev(s[2], env) if s[2] is not None else 0
+            env[s[1]] = Cell(self.ev(s[2], env) if s[2] is not None else 0, s[1])
+        elif k == 'while':
+            while self.ev(s[1], env):
+                self.steps += 1
+                if self.steps > 200:
+                    raise NotInSubset('loop does not terminate within 200 iterations')
+                self.exec(s[2], env)
         elif k == 'expr':
             self.ev(s[1], env)
         else:
@@ -256,7 +302,30 @@ class Eval:
         if k == 'var':
             if e[1] not in env:
                 raise NotInSubset('unknown identifier %s' % e[1])
-            return env[e[1]]
+            v = env[e[1]]
+            return v.get() if isinstance(v, Cell) else v
+        if k == 'deref':
+            p_ = self.ev(e[1], env)
+            if not isinstance(p_, Cell):
+                raise NotInSubset('dereference of a non-pointer')
+            return p_.get()
+        if k == 'addr':
+            t = e[1]
+            if t[0] == 'var' and isinstance(env.get(t[1]), Cell):
+                return env[t[1]]
+            if t[0] == 'deref':
+                return self.ev(t[1], env)
+            raise NotInSubset('address of this expression')
+        if k == 'stmtexpr':
+            inner = dict(env)
+            last = None
+            for st in e[1][1]:
+                if st[0] == 'expr':
+                    last = self.ev(st[1], inner)
+                else:
+                    last = None
+                    self.exec(st, inner)
+            return last
         if k == 'cast':
             return self.ev(e[1], env)
         if k == 'un':
@@ -285,14 +354,26 @@ class Eval:
                 raise NotInSubset('->%s' % e[2])
             return o[e[2]]
         if k == 'call':
+            if e[1] in self.builtins:
+                return self.builtins[e[1]](*[self.ev(a, env) for a in e[2]])
             return self.call(e[1], [self.ev(a, env) for a in e[2]])
         if k == 'assign':
             op, lhs, rhs = e[1], e[2], e[3]
             v = self.ev(rhs, env)
-            if op != '=':
+            if op != '=' and not (lhs[0] == 'deref' and hasattr(self.ev(lhs[1], env), 'rmw')):
                 v = self.ev(('bin', op[:-1], lhs, ('num', v)), env)
-            if lhs[0] == 'var':
-                env[lhs[1]] = v
+            if lhs[0] == 'deref':
+                p_ = self.ev(lhs[1], env)
+                if not isinstance(p_, Cell):
+                    raise NotInSubset('store through a non-pointer')
+                if op != '=' and hasattr(p_, 'rmw'):
+                    return p_.rmw(op[:-1], self.ev(rhs, env))      # op= on a shared atomic object is one indivisible update (C16 R16.1/R16.2)
+                p_.set(v)
+            elif lhs[0] == 'var':
+                if isinstance(env.get(lhs[1]), Cell):
+                    env[lhs[1]].set(v)
+                else:
+                    env[lhs[1]] = v
             elif lhs[0] == 'arrow':
                 o = self.ev(lhs[1], env)
                 if not isinstance(o, dict):
@@ -302,3 +383,67 @@ class Eval:
                 raise NotInSubset('assignment target')
             return v
         raise NotInSubset(k)
+
+
+# ------------------------------------------------------------------ object-like / function-like macros of a header ---
+def parse_macros(text):
+    """{name: (params or None, body tokens)} for the #define lines of a header (continuation lines joined)"""
+    text = re.sub(r'/\*.*?\*/', ' ', text, flags=re.S)
+    text = re.sub(r'\\\n', ' ', text)
+    out = {}
+    for m in re.finditer(r'^[ \t]*#[ \t]*define[ \t]+(\w+)(\(([^)]*)\))?(.*)$', text, re.M):
+        name, has, params, body = m.group(1), m.group(2), m.group(3), m.group(4)
+        body = re.sub(r'//.*$', '', body)
+        try:
+            toks = tokenize(body)
+        except NotInSubset:
+            continue
+        out[name] = ([p.strip() for p in params.split(',')] if has and params.strip() else ([] if has else None), toks)
+    return out
+
+
+def expand(toks, macros, depth=0):
+    """plain token substitution (no # / ##), enough for the wrappers of the bundled headers"""
+    if depth > 20:
+        raise NotInSubset('macro recursion')
+    out = []
+    i = 0
+    while i < len(toks):
+        t = toks[i]
+        if t[0] == 'id' and t[1] in macros:
+            params, body = macros[t[1]]
+            if params is None:
+                out += expand(body, macros, depth + 1); i += 1; continue
+            if i + 1 < len(toks) and toks[i + 1] == ('p', '('):
+                args = [[]]; d = 0; j = i + 2
+                while j < len(toks):
+                    u = toks[j]
+                    if u == ('p', '(') or u == ('p', '{'):
+                        d += 1
+                    elif u == ('p', ')') or u == ('p', '}'):
+                        if d == 0 and u == ('p', ')'):
+                            break
+                        d -= 1
+                    if u == ('p', ',') and d == 0:
+                        args.append([])
+                    else:
+                        args[-1].append(u)
+                    j += 1
+                if j >= len(toks):
+                    raise NotInSubset('unterminated macro invocation')
+                if len(args) != len(params) and not (len(params) == 0 and args == [[]]):
+                    raise NotInSubset('macro %s: %d arguments for %d parameters' % (t[1], len(args), len(params)))
+                amap = dict(zip(params, args))
+                sub = []
+                for b in body:
+                    if b in (('p', '#'), ('p', '##')):
+                        raise NotInSubset('# / ## in macro %s' % t[1])
+                    if b[0] == 'id' and b[1] in amap:
+                        sub += amap[b[1]]
+                    else:
+                        sub.append(b)
+                out += expand(sub, macros, depth + 1)
+                i = j + 1
+                continue
+        out.append(t); i += 1
+    return out
